@@ -89,11 +89,29 @@ type reqSpec struct {
 	Cookie     string // Cookie header
 	AuthSpec   string // steering of the harness authenticator (X-Verif-Auth)
 	RemoteAddr string // "" = ordinary TCP peer
+	// Unclean: the request path is sent in a form that is not clean ("" | dot | dotdot | dupslash). The router answers
+	// such a request with a redirect to the clean path before anything else; whatever it does, the handler may run
+	// only under the same conditions as for the clean path.
+	Unclean string
 }
 
 func (q reqSpec) String() string {
 	return fmt.Sprintf("%s %s (declared R=%d W=%d) acrm=%q host=%q origin=%q authorization=%q cookie=%q authenticator=%q remote=%q",
-		q.Method, q.H.path(), q.H.Read, q.H.Write, q.ACRM, q.Host, q.Origin, q.Authz, q.Cookie, q.AuthSpec, q.RemoteAddr)
+		q.Method, q.mangledPath(), q.H.Read, q.H.Write, q.ACRM, q.Host, q.Origin, q.Authz, q.Cookie, q.AuthSpec, q.RemoteAddr)
+}
+
+func (q reqSpec) mangledPath() string {
+	p := q.H.path()
+	i := strings.LastIndex(p, "/")
+	switch q.Unclean {
+	case "dot":
+		return p[:i] + "/." + p[i:]
+	case "dotdot":
+		return p[:i] + "/zz/.." + p[i:]
+	case "dupslash":
+		return p[:i] + "/" + p[i:]
+	}
+	return p
 }
 
 // ---------------------------------------------------------------- world model
@@ -407,6 +425,19 @@ func methodClass(m string) (read, ok bool) {
 
 // decide returns the acceptable outcomes of a request.
 func (w *world) decide(q reqSpec) []outcome {
+	out := w.decideClean(q)
+	if q.Unclean != "" {
+		for i := range out {
+			if out[i].run == mustRun {
+				out[i].run = mayRun
+			}
+			out[i].statuses = nil
+		}
+	}
+	return out
+}
+
+func (w *world) decideClean(q reqSpec) []outcome {
 	var out []outcome
 
 	// 1. origin gate: before any authenticator or handler.
